@@ -5,6 +5,7 @@ import (
 	"go/constant"
 	"go/token"
 	"go/types"
+	"sort"
 	"strings"
 
 	"golang.org/x/tools/go/ssa"
@@ -435,6 +436,51 @@ func c12Stripped(c *Ctx, ns *numberScanner) {
 		}
 	})
 	c.R.Check(rule, "assembled-from-fragments", c.P.Pos(ns.Num.Pos()), usesFrag, "when separators occur the token text must be assembled from the (separator-free) fragments")
+	// the exponent marker (e / E and the optional sign) is copied as text[end:p] where p is the position
+	// right before the exponent digits: no advance may lie between sampling p and scanning the digits
+	frs := callsTo(ns.Num, ns.Frag)
+	if len(frs) >= 3 {
+		expFrag := frs[len(frs)-1]
+		okMarker, found := true, false
+		instrs(ns.Num, func(b *ssa.BasicBlock, i int, in ssa.Instruction) {
+			sl, isSl := in.(*ssa.Slice)
+			if !isSl || sl.High == nil || sl.Low == nil {
+				return
+			}
+			hi, isU := sl.High.(*ssa.UnOp)
+			if !isU || !isScannerField(hi.X, "pos") {
+				return
+			}
+			// used in a concatenation with the exponent fragment
+			usedWithExp := false
+			for _, ref := range *sl.Referrers() {
+				if cv, isCv := ref.(*ssa.Convert); isCv {
+					for _, r2 := range *cv.Referrers() {
+						if bo, isB := r2.(*ssa.BinOp); isB && bo.Op == token.ADD && (bo.Y == ssa.Value(expFrag) || bo.X == ssa.Value(expFrag)) {
+							usedWithExp = true
+						}
+					}
+				}
+			}
+			if !usedWithExp {
+				return
+			}
+			found = true
+			// an advance between the sample and the exponent digit scan?
+			adv := false
+			instrs(ns.Num, func(b2 *ssa.BasicBlock, j int, q ssa.Instruction) {
+				if st, isSt := q.(*ssa.Store); isSt && isScannerField(st.Addr, "pos") {
+					if pathExists(ns.Num, hi, func(x ssa.Instruction) bool { return x == q }, nil, nil) && pathExists(ns.Num, q, func(x ssa.Instruction) bool { return x == ssa.Instruction(expFrag) }, nil, nil) {
+						adv = true
+					}
+				}
+			})
+			if adv {
+				okMarker = false
+			}
+		})
+		c.R.Check(rule, "exponent-marker-text", c.P.InstrPos(expFrag), found && okMarker, "the text of the exponent marker (e/E and its sign) must run up to the position right before the exponent digits; here the position is sampled before the sign is consumed, so a `-` is lost when the literal is re-assembled (1_0e-2 becomes 10e2)")
+	}
 	c.R.Floor(rule, 3)
 }
 
@@ -486,6 +532,83 @@ func runC15(c *Ctx) {
 	c.R.Check("C15.rejection-by-diagnostic", "end-of-input check", c.P.Pos(ro.Worker.Pos()), kind == "diagnostic", "input left over after the top-level expression is rejected through "+kind+", not through a diagnostic: the error then lacks the `pos(line, column) error(code) message` form and the source with its diagnostics is discarded")
 	c15Guards(c)
 	c15LineBreakSet(c)
+	c15Speculation(c)
+}
+
+// c15Speculation: look-ahead must put back every piece of scanner state that scanning changes;
+// the parser reads node positions (start of trivia) from that state right after a look-ahead.
+func c15Speculation(c *Ctx) {
+	const rule = "C15.speculation-restores-state"
+	scan := c.scanFn()
+	rr := c.ReachFrom("scan", scan)
+	written := map[string]bool{}
+	for _, f := range rr.Order {
+		if typeName(recvType(f)) != "Scanner" {
+			continue
+		}
+		instrs(f, func(b *ssa.BasicBlock, i int, in ssa.Instruction) {
+			if st, ok := in.(*ssa.Store); ok {
+				if fa, ok := st.Addr.(*ssa.FieldAddr); ok && typeName(fa.X.Type()) == "Scanner" {
+					written[fieldName(fa)] = true
+				}
+			}
+		})
+	}
+	// the speculation helper: calls a function-typed parameter, then stores scanner fields
+	n := 0
+	for _, f := range c.P.ModFuncs {
+		if len(f.Blocks) == 0 || f.Synthetic != "" && !strings.Contains(f.Synthetic, "instance") {
+			continue
+		}
+		var cb *ssa.Call
+		instrs(f, func(b *ssa.BasicBlock, i int, in ssa.Instruction) {
+			if call, ok := in.(*ssa.Call); ok && call.Call.StaticCallee() == nil && !call.Call.IsInvoke() {
+				if _, isParam := call.Call.Value.(*ssa.Parameter); isParam {
+					cb = call
+				}
+			}
+		})
+		if cb == nil || len(f.Params) == 0 || typeName(f.Params[0].Type()) != "Scanner" {
+			continue
+		}
+		if f.TypeParams().Len() > 0 && len(f.TypeArgs()) == 0 {
+			continue // the generic template; its instances are checked
+		}
+		n++
+		restored := map[string]bool{}
+		instrs(f, func(b *ssa.BasicBlock, i int, in ssa.Instruction) {
+			st, ok := in.(*ssa.Store)
+			if !ok {
+				return
+			}
+			fa, ok := st.Addr.(*ssa.FieldAddr)
+			if !ok || typeName(fa.X.Type()) != "Scanner" {
+				return
+			}
+			// the stored value was loaded from the same field before the callback ran
+			if u, ok := st.Val.(*ssa.UnOp); ok {
+				if fa2, ok := u.X.(*ssa.FieldAddr); ok && fieldName(fa2) == fieldName(fa) && instrDominates(u, cb) && instrDominates(cb, st) {
+					restored[fieldName(fa)] = true
+				}
+			}
+		})
+		if len(restored) == 0 {
+			n--
+			continue // calls a callback but restores nothing: a look-ahead predicate helper, not the speculation helper
+		}
+		var missing []string
+		for fld := range written {
+			if fld == "onError" || fld == "text" || fld == "end" {
+				continue
+			}
+			if !restored[fld] {
+				missing = append(missing, fld)
+			}
+		}
+		sort.Strings(missing)
+		c.R.Check(rule, c.P.FuncKey(f), c.P.Pos(f.Pos()), len(missing) == 0, "scanning writes the scanner fields "+strings.Join(sortedKeys(written), ", ")+" but the look-ahead helper does not restore "+strings.Join(missing, ", ")+": after a look-ahead the parser takes node positions from stale state (a member name on the line after its `.` gets an empty range)")
+	}
+	c.R.Floor(rule, 1)
 }
 
 func c15RangeSet(c *Ctx, ro *ParserRoles) {
@@ -798,6 +921,17 @@ func c15Guards(c *Ctx) {
 						continue
 					}
 					lc, ok := bo.Y.(*ssa.Call)
+					shrink := int64(0)
+					if !ok {
+						// index < len(text) - c  is  index + c < len(text)
+						if sub, isSub := bo.Y.(*ssa.BinOp); isSub && sub.Op == token.SUB {
+							if k, isK := constIntArg(sub.Y); isK {
+								if l2, isL := sub.X.(*ssa.Call); isL {
+									lc, ok, shrink = l2, true, k
+								}
+							}
+						}
+					}
 					if !ok || !isBuiltinCall(lc, "len") || lc.Call.Args[0] != ia.X {
 						continue
 					}
@@ -805,6 +939,10 @@ func c15Guards(c *Ctx) {
 					per++
 					cons := fmt.Sprintf("%s: guarded index#%d", c.P.FuncKey(f), per)
 					j := bo.X
+					if shrink > 0 && (sameExpr(j, ia.Index) || j == ia.Index) {
+						c.R.Check(rule, cons, c.P.InstrPos(in), false, fmt.Sprintf("the guard tests index < len(text)-%d but text[index] is what is read: the last byte(s) of the text are never examined here (a CR LF pair at the very end of the input is counted as two line breaks)", shrink))
+						continue
+					}
 					if sameExpr(j, ia.Index) || j == ia.Index {
 						c.R.Add(rule, cons, c.P.InstrPos(in), OK, "")
 						continue
